@@ -13,6 +13,11 @@ mod ws_stream;
 mod longtests;
 pub(crate) mod builder;
 
+#[cfg(all(feature = "verif", feature = "threaded-websockets"))]
+pub(crate) fn verif_ws_wrap<T>(stream: tungstenite::protocol::WebSocket<T>) -> impl std::io::Read + std::io::Write where T : std::io::Read + std::io::Write {
+    ws_stream::WebsocketStreamWrapper::new(stream)
+}
+
 use std::cmp::min;
 use std::io::{Read, Write};
 use std::net::TcpStream;
